@@ -1094,6 +1094,23 @@ func (c *SpecCtx) evalCall(e *ECall) Val {
 		v := c.eval(e.Args[1])
 		c.st, c.inOld = saveSt, saveIn
 		return v
+	case "fapply":
+		// fapply(f, args...): result 0 of calling the function value f on args, in the same uninterpreted-function
+		// model the generator uses for calls through function values under funcvalues=pure
+		fv := c.eval(e.Args[0])
+		sig, okSig := fv.Typ.Underlying().(*types.Signature)
+		if !okSig || sig.Results().Len() < 1 {
+			c.fail("fapply: first argument must be a function value with a result")
+		}
+		sorts := []string{"Int"}
+		ts := []string{fv.T}
+		for _, a := range e.Args[1:] {
+			av := c.eval(a)
+			sorts = append(sorts, enc.sortOf(av.Typ))
+			ts = append(ts, av.T)
+		}
+		rt := sig.Results().At(0).Type()
+		return Val{T: enc.uf(fmt.Sprintf("fapply.%s.%d", sigKey(sig), 0), sorts, enc.sortOf(rt), ts...), Typ: rt}
 	case "trimprefix":
 		// strings.TrimPrefix, same model as the library call: s[len(p):] if HasPrefix(s, p) else s
 		sv := c.eval(e.Args[0])
